@@ -21,10 +21,6 @@ combo of that category and key -/
 def grpF (cat : String) (key : GroupKey) (t : ℚ) (taxes : List Combo) : ℚ :=
   ((taxes.filter (fun cb => decide (cb.cat = cat ∧ keyOfCombo cb = key))).map (fun _ => t)).sum
 
-/-- number of combos of the group on a row -/
-def gN (cat : String) (key : GroupKey) (taxes : List Combo) : ℕ :=
-  (taxes.filter (fun cb => decide (cb.cat = cat ∧ keyOfCombo cb = key))).length
-
 /-- the exact base of the group `(cat, key)`: Σ exact rows (included tax taken out), once per combo
 of the group -/
 def grpExactQ (d : Doc) (cat : String) (key : GroupKey) : ℚ :=
@@ -243,6 +239,38 @@ theorem group_rows_shown (d : Doc) (out : Out) (t : Totals) (hd : DocTI ret d)
       simp only [Option.some.injEq, Prod.mk.injEq] at hs
       obtain ⟨rfl, rfl⟩ := hs
       exact ⟨rt0.base.mulX sp0.amount, presents_rescale d.c _, hpct sp0⟩
+
+/-! ## the exact quantities as the specification file has them (`Spec/C01.lean`, evaluated by the driver) -/
+
+theorem remQ_eq_exclQ (inc : Option String) (q : ℚ) (taxes : List Combo) :
+    remQ inc q taxes = Spec.C01.exclQ inc q taxes := rfl
+
+theorem exactTaxRows_eq (d : Doc) :
+    Spec.C01.exactTaxRows d = (exactRowsW d).map (fun er => (remQ d.includes er.1 er.2.1, er.2.1)) := by
+  simp only [Spec.C01.exactTaxRows, exactRowsW, Spec.C01.exactQ, List.map_append, List.map_map, List.filterMap_map,
+    List.map_filterMap, Function.comp_def, Option.map_map, remQ_eq_exclQ]
+
+theorem catExactQ_selP (d : Doc) (k : String) : catExactQ selP d k = Spec.C01.catAmountQ d k := by
+  unfold catExactQ Spec.C01.catAmountQ
+  rw [exactTaxRows_eq, List.map_map]
+  congr 1
+
+theorem catExactQ_selS (d : Doc) (k : String) : catExactQ selS d k = Spec.C01.catSurchargeQ d k := by
+  unfold catExactQ Spec.C01.catSurchargeQ
+  rw [exactTaxRows_eq, List.map_map]
+  congr 1
+
+theorem grpExactQ_eq (d : Doc) (cat : String) (key : GroupKey) : grpExactQ d cat key = Spec.C01.groupBaseQ d cat key := by
+  unfold grpExactQ Spec.C01.groupBaseQ
+  rw [exactTaxRows_eq, List.map_map]
+  rfl
+
+theorem presents_err (c : ℕ) (a : Amount) (q : ℚ) (h : Spec.C01.presents c a q) : |a.toRat - q| ≤ halfUlp c := by
+  obtain ⟨he, hv⟩ := h
+  have := roundTo_err c q
+  show |((a.value : ℤ) : ℚ) / ((pow10 a.exp : ℤ) : ℚ) - q| ≤ _
+  rw [he, hv]
+  exact this
 
 end Err
 end Calc
